@@ -10,7 +10,16 @@ func init() {
 	engines["C05"] = func() *ShardResult { return runSeq("C05") }
 	engines["C08"] = func() *ShardResult { return seqThenCrash("C08") }
 	engines["C13"] = func() *ShardResult { return seqThenCrash("C13") }
-	engines["C20"] = func() *ShardResult { return runSeq("C20") }
+	engines["C20"] = func() *ShardResult {
+		total := *fBudget
+		res := newResult()
+		// the verifier's counters when a compaction overlaps a checkpoint's StoreLogs (scheduler part first)
+		runVConc(res, "C20", total/6)
+		*fBudget = total * 5 / 6
+		res.merge(runSeq("C20"), "")
+		*fBudget = total
+		return res
+	}
 }
 
 func badAppends(m *core.Model) []core.Op {
@@ -81,6 +90,10 @@ func runSeq(prop string) *ShardResult {
 		}
 		sc.Alpha = func(m *core.Model) []core.Op {
 			ops := appendOps(m, [][]int{{4}, {12, 4}})
+			if m.Last == 0 {
+				// a start index beyond 32 bits (offsets relative to the base index must not be narrowed)
+				ops = append(ops, core.Op{K: "A", Idx: 1<<32 + 5, Sizes: []int{4, 4}, Gen: genOf(m, 1<<32+5)})
+			}
 			ops = append(ops, badAppends(m)...)
 			ops = append(ops, delShapes(m)...)
 			// clean reopen, with the same and with another configured segment size
